@@ -547,8 +547,8 @@ func c20grind() (a, b *c19tx, tries int) {
 func TestVerif_C20(t *testing.T) {
 	r := vh.Start(t, "C20", "blockcodec")
 	defer r.Finish()
-	r.Rule("blocks built by an independent encoder (own header layout, own merkle root) from the 13 C19 base transactions are decoded by BlockFromRawBytes and Block.Deserialization; accepted => ToArray()==consumed, decoded tx hashes distinct and their reference root == header root, under an unchanged header root the tx-hash list is the original one, Hash()==sha256d(unsigned header) and hash<->unsigned-header bijection over the run, no panic. Inputs: blocks of 0..5 txs (all ordered selections up to 2, thorough 3) x signer lists of 0/1/4 keys; all permutations of the tx list (<=4, thorough <=5); every duplicate insertion incl. the odd-leaf tricks [a,b,c]->[a,b,c,c], [a..e]->[a..e,e,e,e], [a..f]->[a..f,e,f]; every drop/replace/re-signed copy; tx count +-1; an interior merkle node offered as a 64-byte transaction; every single-byte mutation of 3 whole blocks; every var-int non-minimal; signer/signature counts >= 2^63; 19 bookkeeper key encodings; truncations; trailing bytes. distinct = (accepted|rejected, family, reason) classes")
-	r.Bound(fmt.Sprintf("tx lists <= 6 (permutations <= %d), %d fully mutated blocks (%d byte mutations per offset), 19 key forms, list mutations from %d starting offsets into the base pool", r.Pick(4, 5), r.Pick(3, 5), r.Pick(5, 12), r.Pick(3, 13)))
+	r.Rule("blocks built by an independent encoder (own header layout, own merkle root) from the 13 C19 base transactions are decoded by BlockFromRawBytes and Block.Deserialization; accepted => ToArray()==consumed, decoded tx hashes distinct and their reference root == header root, under an unchanged header root the tx-hash list is the original one, Hash()==sha256d(unsigned header) and hash<->unsigned-header bijection over the run, no panic. Inputs: blocks of 0..5 txs (all ordered selections up to 2, thorough 3) x signer lists of 0/1/4 keys; all permutations of the tx list (<=4, thorough <=5); every duplicate insertion incl. the odd-leaf tricks [a,b,c]->[a,b,c,c], [a..e]->[a..e,e,e,e], [a..f]->[a..f,e,f]; every drop/replace/re-signed copy; tx count +-1; an interior merkle node offered as a 64-byte transaction; every single-byte mutation of 3 whole blocks; every var-int non-minimal; length-boundary blocks: for each of 14 var-uint fields of the block encoding (consensus payload length, bookkeeper count, sigdata count and length; of an embedded transaction: invoke/deploy code, signature invoke/verify script, deploy description/name/version/author/e-mail, EIP-155 RLP length) an honest block whose field really has the value L for every L in {0xfc,0xfd,0xfe,0xff,0x100,0xfffe,0xffff,0x10000,0x10001} with the canonical prefix and with every longer prefix width, header fields also through HeaderFromRawBytes; signer/signature counts >= 2^63; 19 bookkeeper key encodings; truncations; trailing bytes. distinct = (accepted|rejected, family, reason) classes")
+	r.Bound(fmt.Sprintf("tx lists <= 6 (permutations <= %d), %d fully mutated blocks (%d byte mutations per offset), 19 key forms, list mutations from %d starting offsets into the base pool; length boundaries: 14 fields x 9 values (string fields of a deploy <= 0x100) x prefix widths 1/3/5/9, the 2^32 boundary not reached", r.Pick(4, 5), r.Pick(3, 5), r.Pick(5, 12), r.Pick(3, 13)))
 	c := &c20run{r: r, byHash: map[[32]byte]string{}, byContent: map[string][32]byte{}, descOf: map[string]string{}}
 
 	var rc c20case
